@@ -31,6 +31,7 @@ SweepBs    == {7}
 NoRuns     == {1}
 FineSweepAs == {5 * Q + 1, 300 * Q}
 FineSweepBs == {7 * Q + 2}
+FineSweepW  == {<<500 * Q, 600 * Q>>, <<500 * Q, 500 * Q>>}
 SweepInit  == Init /\ ng = 2
 
 \* ---- width sweep (enumerated): fonts of 1..3 glyphs without outlines, every assignment of boundary
@@ -39,6 +40,20 @@ W5          == {0, -(250 * Q) - Q \div 2, -(250 * Q), 500 * Q, 500 * Q + Q \div 
 WidthSweepW == {<<a, b, c>> : a \in W5, b \in W5, c \in W5}
 WidthPlans  == {<<0, 0>>, <<1, 0>>}
 WidthSD     == {20 * Q}
+
+AllSweeps   == {"count", "delta", "value"}
+ValueOnly   == {"value"}
+AllPos      == 1..48
+SomePos     == {1, 2, 5, 6, 23, 24, 41, 42, 43, 44, 45, 47, 48}
+
+\* ---- width-selection sweep (enumerated, integers): every width sequence of 1..4 glyphs over values
+\* around 0 and +-107, so that the selection rule lands on each of its special values
+WS5         == {-1000, -107, 0, 107, 500}
+WidthSelW   == {<<a>> : a \in WS5} \cup {<<a, b>> : a \in WS5, b \in WS5}
+               \cup {<<a, b, c>> : a \in WS5, b \in WS5, c \in WS5}
+               \cup {<<a, b, c, d>> : a \in WS5, b \in WS5, c \in WS5, d \in WS5}
+NoStems     == {<<0, 0>>}
+WidthSelInit == Init /\ ng = Len(wp)
 
 \* ---- exhaustive configuration
 TinyD     == {0, 3}
